@@ -153,6 +153,12 @@ def reference_cases(tier, rng):
         xp = "M:body=%s,size=%d,reqtls=%d,utf8=%d,ret=%s,envid=%s,auth=%s" % (_hx(o["body"]), o["size"], o["reqtls"], o["utf8"], _hx(o["ret"]),
                                                                             _hx(o["envid"]), "nil" if o["auth"] is None else _hx(o["auth"]))
         mail_case(ALL, toks, xp)
+    # SIZE values around the edges of 32- and 64-bit integers (RFC 1870 allows 20 digits): refused, or delivered exactly — never altered
+    for v in (2 ** 31 - 1, 2 ** 31, 2 ** 32 - 1, 2 ** 32, 2 ** 32 + 5, 2 ** 63 - 1, 2 ** 63, 2 ** 64 - 100, 2 ** 64 - 1, 2 ** 64, 10 ** 19, 10 ** 20 - 1, 10 ** 25):
+        for extra in ([], [b"BODY=8BITMIME"]):
+            xp = "M?:body=%s,size=%d,reqtls=0,utf8=0,ret=-,envid=-,auth=nil" % (_hx(b"8BITMIME") if extra else "-", v)
+            mail_case(ALL, [b"SIZE=%d" % v] + extra, xp)
+            mail_case(dict(ALL, maxmsg=1000), [b"SIZE=%d" % v] + extra, "REFUSED:M" if v > 1000 else xp)
     notifies = [[b"NEVER"], [b"SUCCESS"], [b"FAILURE", b"DELAY"], [b"DELAY", b"SUCCESS", b"FAILURE"], [b"SUCCESS", b"FAILURE"]]
     orcpts = [b"o@x.org", b"bob;ext@example.com", b"a+b=c d@x", b"o@x;"]
     for _ in range(n):
